@@ -41,6 +41,9 @@ var stdoutFile *os.File
 func captured(f func()) string {
 	if stdoutFile == nil {
 		stdoutFile, _ = os.CreateTemp("", "c11-stdout")
+		if stdoutFile != nil {
+			os.Remove(stdoutFile.Name()) // stays usable while open; nothing is left behind in the temp directory
+		}
 	}
 	st, _ := stdoutFile.Stat()
 	off := st.Size()
